@@ -100,7 +100,9 @@ impl TransportError {
 /// clauses proved on the real SendBuffer in unit send_buffer.
 pub struct SendBuffer { pub un: u64, pub g: Ghost<(Seq<u8>, u64, u64, bool)>,
     /// ghost: the offset from which data is still (or again) to be transmitted, relative to `base` (`unsent` of the real buffer)
-    pub unsent: Ghost<nat> }
+    pub unsent: Ghost<nat>,
+    /// ghost: stream offsets queued for retransmission (`retransmits` of the real buffer)
+    pub lost: Ghost<Set<int>> }
 impl SendBuffer {
     pub open spec fn stored(&self) -> Seq<u8> { self.g@.0 }
     pub open spec fn base(&self) -> u64 { self.g@.1 }
@@ -114,6 +116,10 @@ impl SendBuffer {
     /// the whole buffer is marked unsent again, so that the stream is transmitted from its first unacknowledged byte -- and its FIN
     /// with the last frame -- once more (`unsent = 0`)
     pub open spec fn resend_all(&self) -> bool { self.unsent@ == 0 }
+    /// SendBuffer::retransmit (unit send_buffer): the range is added to what has to be sent again, nothing else changes
+    #[verifier::external_body] pub fn retransmit(&mut self, range: Range<u64>)
+        ensures final(self).lost@ == old(self).lost@.union(vstd::set_lib::set_int_range(range.start as int, range.end as int)), final(self).un == old(self).un, final(self).g@ == old(self).g@, final(self).unsent@ == old(self).unsent@
+    { unimplemented!() }
     #[verifier::external_body] pub fn retransmit_all_for_0rtt(&mut self)
         ensures final(self).resend_all(), final(self).un == old(self).un, final(self).g@ == old(self).g@, final(self).fully_acked() == old(self).fully_acked()
     { unimplemented!() }
@@ -907,6 +913,28 @@ impl StreamsState {
                         StreamId::lemma_new_distinct(self.side, d2, k, dir, i);
                     }
                 }
+//@ end
+//@ extract quinn-proto/src/connection/streams/state.rs :: impl StreamsState::fn retransmit
+//@ props C01
+//@ boolops
+//@ replace self.send.get_mut(&frame.id).and_then(|s| s.as_mut()) => send_get(&mut self.send, frame.id)
+//@ contract
+        requires
+            // scheduling invariant: a stream that has something to transmit has an entry in the queue
+            forall|i: StreamId| (#[trigger] send_abs(old(self).send, i)) matches Some(st) && st.pending_spec() ==> old(self).pending.ids().contains(i),
+        ensures
+            // C01: a lost STREAM frame is sent again - its byte range joins what the stream has to retransmit, a lost FIN is pending
+            // again, and the stream is scheduled; a stream that no longer exists is left alone
+            match send_abs(old(self).send, frame.id) {
+                // (a send half nothing has been done with yet - Ready, nothing outstanding, no FIN - may still be unmaterialised)
+                Some(s0) => (s0.state is Ready && s0.pending.fully_acked() && !s0.fin_pending && final(self).send == old(self).send)
+                    || (send_abs(final(self).send, frame.id) matches Some(s1)
+                        && s1.pending.lost@ == s0.pending.lost@.union(vstd::set_lib::set_int_range(frame.offsets.start as int, frame.offsets.end as int))
+                        && s1.fin_pending == (s0.fin_pending || frame.fin) && s1.state == s0.state
+                        && final(self).pending.ids().contains(frame.id)),
+                None => final(self).send == old(self).send,
+            },
+            final(self).fc() == old(self).fc(), final(self).sfc() == old(self).sfc(),
 //@ end
 //@ extract quinn-proto/src/connection/streams/state.rs :: impl StreamsState::fn retransmit_all_for_0rtt
 //@ props C01 C17
